@@ -124,6 +124,7 @@ CHECKS = {
                      "bounded variant enumeration per crash point"],
     ),
     "C06": dict(
+        fuzz=dict(target="FuzzC06", seconds=600),
         test="TestC06", level="exploration", shards=16, cmds=["mkwork", "mkrestart"], engine="crash-engine",
         tiers=dict(quick=dict(checks=2, timeout=900), thorough=dict(checks=40, timeout=3400, env=dict(VERIF_MUTATIONS=30))),
         technique="structured mutation fuzzing of real WAL files, fresh-process replay, model oracle",
